@@ -72,13 +72,14 @@ func (e *Environment) expandNameWithIndex(name string, expanding map[string]bool
 	for _, n := range names {
 		alias, ok := e.Aliases[n]
 		if !ok || expanding[n] {
-			// an alias that (directly or not) refers to itself is not expanded again
+			// an alias is expanded once: one that (directly or not) refers to itself does not recurse, and
+			// one that occurs again and again ("#a" -> "#b.#b", "#b" -> "#c.#c" ...) does not double the
+			// work at every level
 			continue
 		}
 
 		expanding[n] = true
 		names = append(names, e.expandNameWithIndex(alias, expanding)...)
-		delete(expanding, n)
 	}
 
 	return names
